@@ -277,7 +277,8 @@ func expect(set []int, cmd string, sh shape, layout string) expectation {
 				lintRules = append(lintRules, p.Rule)
 			}
 		case "breaking":
-			if p.NoFile && sh.Kind == "dir" || !p.NoFile && targets[p.File] {
+			// `buf breaking` also judges the files the targets import (it has a switch, --exclude-imports, to turn that off)
+			if p.NoFile && sh.Kind == "dir" || !p.NoFile && compiled[p.File] {
 				breakingRules = append(breakingRules, p.Rule)
 			}
 		case "unformatted":
@@ -342,7 +343,7 @@ type cliStats struct {
 	perShapeLayout                            map[string]int
 	f7, timedOut                              atomic.Int64
 	lineGrammarSkipped                        atomic.Int64
-	viaScanOnly100                            atomic.Int64 // runs that exit 100 for a problem only the package scan can see
+	viaScanOnly                               atomic.Int64 // runs on a workspace whose only source problem in scope is one that only the package scan can see
 	formatRewrote, formatWroteOutput          atomic.Int64 // -w runs that changed the sources / -o runs whose output differs from the sources
 	formatModesCompared                       atomic.Int64
 	buildOutputWritten                        atomic.Int64
@@ -482,6 +483,9 @@ func runWorkspace(ctx context.Context, r *evid.Run, st *cliStats, scratch string
 			return // the reference would name a file the planted set deletes
 		}
 	}
+	if _, ok := logical[logicalPath["b"]]; !ok && layout == "multi" {
+		return // module modb would have no file at all, which buf rejects as a configuration error
+	}
 	files := layoutFiles(layout, logical)
 	root := filepath.Join(scratch, fmt.Sprintf("w%d", n))
 	dir := filepath.Join(root, job.dirName)
@@ -543,19 +547,36 @@ func runWorkspace(ctx context.Context, r *evid.Run, st *cliStats, scratch string
 		if isFormatCommand(cmd) && sh.Kind == "pkgfiles" {
 			continue // `buf format` does not accept include_package_files (an operational error, see cliOperational)
 		}
-		want := expect(job.set, cmd, sh, layout)
-		fmts := formats
-		switch {
-		case r.Quick() && (cmd == "format" || cmd == "format-d" || cmd == "build-o"):
-			// --error-format has no influence on buf format; quick runs two of the five values
-			fmts = formats[:2]
-		case r.Quick() && isFormatCommand(cmd):
-			fmts = formats[:1]
-		case cmd == "lint" && layout == "single":
-			fmts = append(append([]string(nil), formats...), "config-ignore-yaml")
+		if cmd == "breaking" && sh.Kind == "path" {
+			// --path is resolved against both inputs; the in-process CLI cannot change the working directory, so the
+			// absolute path of the input is outside the --against directory (an operational error by construction)
+			continue
 		}
-		if !base && r.Quick() && isFormatCommand(cmd) {
-			fmts = formats[:1]
+		want := expect(job.set, cmd, sh, layout)
+		// --error-format has no influence on `buf format` (checked on the workspaces of the dir shape in the
+		// thorough tier over all five values); elsewhere two values, quick: one for the output modes
+		var fmts []string
+		switch {
+		case cmd == "format" || cmd == "format-d":
+			fmts = formats[:2]
+			if !r.Quick() && base {
+				fmts = formats
+			}
+		case isFormatCommand(cmd):
+			fmts = formats[:2]
+			if r.Quick() {
+				fmts = formats[:1]
+			}
+		case cmd == "build-o" && r.Quick():
+			fmts = formats[:2]
+		case r.Quick() && !base:
+			// the printers are the same for every input shape; quick compares three of the five renderings there
+			fmts = []string{"text", "json", "github-actions"}
+		default:
+			fmts = formats
+		}
+		if cmd == "lint" && layout == "single" {
+			fmts = append(append([]string(nil), fmts...), "config-ignore-yaml")
 		}
 		// where -o writes to
 		sp.out = filepath.Join(root, "out-"+cmd)
@@ -614,11 +635,11 @@ func runWorkspace(ctx context.Context, r *evid.Run, st *cliStats, scratch string
 				st.exit0.Add(1)
 			case 100:
 				st.exit100.Add(1)
-				if want.ViaScanOnly {
-					st.viaScanOnly100.Add(1)
-				}
 			default:
 				st.exitOther.Add(1)
+			}
+			if want.ViaScanOnly {
+				st.viaScanOnly.Add(1)
 			}
 			// O2: the plant model
 			if want.Exit >= 0 && res.ExitCode != want.Exit || want.Exit < 0 && res.ExitCode == 0 {
@@ -821,6 +842,14 @@ func checkFormatCommand(r *evid.Run, st *cliStats, cmd string, job wsJob, dir, s
 		default:
 			differs = run.after != sources
 		}
+		if differs {
+			switch cmd {
+			case "format-w", "format-dw":
+				st.formatRewrote.Add(1)
+			case "format-o", "format-do":
+				st.formatWroteOutput.Add(1)
+			}
+		}
 		switch res.ExitCode {
 		case 0:
 			st.formatClean.Add(1)
@@ -829,16 +858,6 @@ func checkFormatCommand(r *evid.Run, st *cliStats, cmd string, job wsJob, dir, s
 			}
 		case 100:
 			st.formatDiff.Add(1)
-			switch cmd {
-			case "format-w", "format-dw":
-				if differs {
-					st.formatRewrote.Add(1)
-				}
-			case "format-o", "format-do":
-				if differs {
-					st.formatWroteOutput.Add(1)
-				}
-			}
 			if !differs {
 				r.Violate("cli/exit-100-nothing-printed/"+cmd, "buf format --exit-code exits 100 but shows no difference", mk(format, ""))
 			}
@@ -1020,6 +1039,19 @@ func opErrors() []opError {
 			return argsFor(cmd, dir, filepath.Join(dir, "no-such-dir"), format)
 		}},
 		{ID: "two-inputs", Commands: all, Args: withExtra("second-input")},
+		// the switches that select where `buf format` sends its result
+		{ID: "format-write-and-output", Commands: []string{"format-w", "format-dw"}, Args: func(cmd, dir, against, format string) []string {
+			return append(argsFor(cmd, dir, against, format), "-o", filepath.Join(filepath.Dir(dir), "some-output"))
+		}},
+		{ID: "format-include-package-files", Commands: []string{"format", "format-d", "format-w"}, Args: func(cmd, dir, against, format string) []string {
+			return argsFor(cmd, filepath.Join(dir, "a/v1/a.proto")+"#include_package_files=true", against, format)
+		}},
+		{ID: "format-output-is-a-module", Commands: []string{"format-o", "format-do"}, Args: func(cmd, dir, against, format string) []string {
+			return argsForSpec(cmd, inputSpec{in: dir, out: "buf.build/acme/weather"}, format)
+		}},
+		{ID: "missing-input-dir-output-modes", Commands: outputModeCommands, Args: func(cmd, dir, against, format string) []string {
+			return argsFor(cmd, filepath.Join(dir, "no-such-dir"), against, format)
+		}},
 	}
 }
 
